@@ -43,9 +43,9 @@ META = {
         "not_covered": COMMON_NOT + ["nested_delimiters (recursive + boxed: not within reach in this round)", "the recovered error's expected set (TagErr carries position only)"],
     },
     "C09": {
-        "bounds": {"quick": "whole parser: 2-operator tables {prefix(2), infix(left 1)} and {infix(left 1), postfix(3)} at N=3, arbitrary bytes; one operator step (infix / prefix / postfix) with SYMBOLIC power < 2^15, associativity and min_power, recursion stubbed",
+        "bounds": {"quick": "whole parser: 2-operator tables {prefix(2), infix(left 1)} (tuple form, and Vec of boxed operators) and {infix(left 1), postfix(3)} at N=3, arbitrary bytes; one operator step (infix / prefix / postfix) with SYMBOLIC power < 2^15, associativity and min_power, recursion stubbed",
                    "thorough": "adds the 3-operator table {prefix, infix, postfix} at N=3, {prefix(P), infix} P in {0,2} at N=4, {infix left(1), infix left|right(2)} and {prefix, prefix, infix} at N=5"},
-        "not_covered": ["tables of 4..6 operators, strings of length 8", "symbolic powers in the whole-parser query (unrolling of the recursive closure calls explodes: measured timeouts)", "Vec / boxed tables (tuple tables only)"],
+        "not_covered": ["tables of 4..6 operators, strings of length 8", "symbolic powers in the whole-parser query (unrolling of the recursive closure calls explodes: measured timeouts)", "array tables; Vec / boxed tables beyond the one 2-operator table"],
     },
     "C10": {
         "bounds": {"quick": "N=3; &[u8] vs IterInput, Input::map, map_span, &[u8; 3], BoxedStream over a 3-token array, &str (ASCII); Stream over a pull-counting plain iterator: pulls <= |x| and acceptance", "thorough": "same"},
@@ -61,8 +61,8 @@ META = {
         "not_covered": ["stacker / nesting 10^6 deep (FFI / inline assembly; far outside any bound)", "define() twice (covered by the pinned test recursive_define_twice)", "Location::caller is stubbed in the declare/define harnesses", "recursive() beyond N=2 (its Rc<dyn Parser> handle defeats constant propagation: measured timeouts)"],
     },
     "C13": {
-        "bounds": {"quick": "histories of 2 parses with independent symbolic inputs of length <= 2 on one parser value; wrappers clone, &, Box, Rc, Arc, boxed(), Either; clone / boxed clone of a recursive parser after the drop of the original", "thorough": "adds a recursive + memoized parser reused after a first parse of length <= 1"},
-        "not_covered": ["threads / schedules (Kani does not model concurrency)", "Cache", "histories longer than 2"],
+        "bounds": {"quick": "histories of 2 parses with independent symbolic inputs of length <= 2 on one parser value; wrappers clone, &, Box, Rc, Arc, boxed(), Either; clone / boxed clone of a recursive parser after the drop of the original", "thorough": "same"},
+        "not_covered": ["threads / schedules (Kani does not model concurrency)", "Cache", "histories longer than 2", "a recursive + memoized parser reused (out of memory at 12 GB in three sizes)"],
     },
     "C14": {
         "bounds": {"quick": "arbitrary bytes N=3 (keyword: 4) for int(10), digits(16), ascii::ident, keyword, whitespace, inline_whitespace, padded; &str of <= 3 chars from the 7 terminator characters + 'a' for newline; &str vs &[u8] on 2 ASCII bytes",
